@@ -289,7 +289,7 @@ func offerType(o string) string {
 	if i := strings.IndexByte(o, ';'); i >= 0 {
 		o = o[:i]
 	}
-	return o
+	return strings.TrimSpace(o) // "text/plain ; charset=utf-8": the blank in front of the parameters is not part of the type (r10)
 }
 
 // Specificity ranks: exact media range 2, type/* 1, */* 0.
